@@ -156,6 +156,12 @@ fn robustness_script(t: &mut Tape) -> Script {
     if t.chance(1, 4) {
         s.content_type_mask = t.raw();
     }
+    // a wall clock that leaps by more than 2^64 ms (the far future of the far future) between two readings
+    if !s.clock.is_empty() && t.chance(1, 6) {
+        let k = t.choose(s.clock.len());
+        let secs = 18_446_744_073_709_552i128 + t.choose(1_000_000) as i128 * 1_000_000_000;
+        s.clock[k].wall_jump = Some(secs * 1_000_000_000 * if t.chance(1, 4) { 400 } else { 1 });
+    }
     // policy answers at the edge of their types: minimum waits that stand for 'for ever'
     for k in 0..s.timings.len() {
         if t.chance(1, 6) {
